@@ -3,13 +3,21 @@
    is written, validate()/validate_field() validate at every level.  `valid` is the validator of the datatype
    (Codec.accepts over the regenerated grammars). *)
 From Coq Require Import List String Ascii ZArith Bool.
-From GfaV Require Import Base.Py Model.Codec.
+From GfaV Require Import Base.Py Gen.K_levels Model.Codec.
 Import ListNotations.
 Open Scope string_scope.
 
 Record fcell := mkF { f_dt : string; f_text : string }.
 
 Definition valid (O : oracle) (c : fcell) : bool := accepts O (f_dt c) (f_text c).
+
+(* the thresholds are read from the source (Gen/K_levels.v): the first comparison of the validation level in
+   FieldData._set_existing_field and in Writer.field_to_s *)
+Definition level_of (l : list (string * Z)) (i : nat) : nat :=
+  match nth_error l i with Some (_, z) => Z.to_nat z | None => O end.
+Definition set_level : nat := level_of T_VLEVELS_set_existing_field 0.
+Definition write_level : nat := level_of T_VLEVELS_field_to_s 0.
+Definition init_level : nat := level_of T_VLEVELS_init_field_value 0.
 
 Inductive lop := LSet (v : string) | LWrite | LValidate.
 
@@ -18,9 +26,9 @@ Definition lstep (O : oracle) (level : nat) (c : fcell) (o : lop) : fcell * res 
   match o with
   | LSet v =>
       let c' := mkF (f_dt c) v in
-      if Nat.leb 3 level && negb (valid O c') then (c, Err (G EFormat)) else (c', Ok "")
+      if Nat.leb set_level level && negb (valid O c') then (c, Err (G EFormat)) else (c', Ok "")
   | LWrite =>
-      if Nat.leb 2 level && negb (valid O c) then (c, Err (G EFormat)) else (c, Ok (f_text c))
+      if Nat.leb write_level level && negb (valid O c) then (c, Err (G EFormat)) else (c, Ok (f_text c))
   | LValidate => if valid O c then (c, Ok "") else (c, Err (G EFormat))
   end.
 
